@@ -1,38 +1,42 @@
 use std::ops::{AddAssign, SubAssign};
 
-use num_traits::{One, Zero};
+use num_bigint::BigInt;
+use num_traits::{One, Signed, ToPrimitive, Zero};
 
 use super::free_words::FreeWord;
 
 
-fn gcdx(a: isize, b: isize) -> (isize, isize, isize, isize, isize)
+fn gcdx<T>(a: T, b: T) -> (T, T, T, T, T)
+    where T: Signed + Clone + PartialOrd
 {
     let (mut a, mut a_next) = (a, b);
-    let (mut r, mut r_next) = (1, 0);
-    let (mut s, mut s_next) = (0, 1);
+    let (mut r, mut r_next) = (T::one(), T::zero());
+    let (mut s, mut s_next) = (T::zero(), T::one());
 
-    while a_next != 0 {
-        let q = a / a_next;
-        (a, a_next) = (a_next, a - q * a_next);
-        (r, r_next) = (r_next, r - q * r_next);
-        (s, s_next) = (s_next, s - q * s_next);
+    while !a_next.is_zero() {
+        let q = a.clone() / a_next.clone();
+        (a, a_next) = (a_next.clone(), a - q.clone() * a_next);
+        (r, r_next) = (r_next.clone(), r - q.clone() * r_next);
+        (s, s_next) = (s_next.clone(), s - q * s_next);
     }
 
     (a, r, s, r_next, s_next)
 }
 
 
-fn find_pivot(mat: &Vec<Vec<isize>>, start: usize) -> (usize, usize) {
+fn find_pivot<T>(mat: &Vec<Vec<T>>, start: usize) -> (usize, usize)
+    where T: Signed + Clone + PartialOrd
+{
     let (n, m) = (mat.len(), mat[0].len());
     let mut row = start;
     let mut col = start;
-    let mut min = isize::max_value();
+    let mut min: Option<T> = None;
 
     for r in start..n {
         for c in start..m {
             let v = mat[r][c].abs();
-            if v != 0 && v < min {
-                (row, col, min) = (r, c, v)
+            if !v.is_zero() && min.as_ref().map_or(true, |min| v < *min) {
+                (row, col, min) = (r, c, Some(v))
             }
         }
     }
@@ -40,45 +44,44 @@ fn find_pivot(mat: &Vec<Vec<isize>>, start: usize) -> (usize, usize) {
 }
 
 
-fn move_pivot_in_place(
-    mat: &mut Vec<Vec<isize>>,
+fn move_pivot_in_place<T>(
+    mat: &mut Vec<Vec<T>>,
     target: usize,
     (row, col): (usize, usize)
 )
 {
-    let (n, m) = (mat.len(), mat[0].len());
-
     if row != target {
-        for c in 0..m {
-            (mat[row][c], mat[target][c]) = (mat[target][c], mat[row][c]);
-        }
+        mat.swap(row, target);
     }
     if col != target {
-        for r in 0..n {
-            (mat[r][col], mat[r][target]) = (mat[r][target], mat[r][col]);
+        for r in 0..mat.len() {
+            mat[r].swap(col, target);
         }
     }
 }
 
 
-fn clear_later_rows_in_place(mat: &mut Vec<Vec<isize>>, i: usize) -> usize {
+fn clear_later_rows_in_place<T>(mat: &mut Vec<Vec<T>>, i: usize) -> usize
+    where T: Signed + Clone + PartialOrd
+{
     let (n, m) = (mat.len(), mat[0].len());
     let mut count = 0;
 
     for row in (i + 1)..n {
-        let (e, f) = (mat[i][i], mat[row][i]);
+        let (e, f) = (mat[i][i].clone(), mat[row][i].clone());
 
-        if e != 0 && f % e == 0 {
+        if !e.is_zero() && (f.clone() % e.clone()).is_zero() {
             let x = f / e;
             for col in i..m {
-                mat[row][col] -= x * mat[i][col];
+                mat[row][col] =
+                    mat[row][col].clone() - x.clone() * mat[i][col].clone();
             }
-        } else if f != 0 {
+        } else if !f.is_zero() {
             let (_, a, b, c, d) = gcdx(e, f);
             for col in i..m {
-                let (v, w) = (mat[i][col], mat[row][col]);
-                mat[i][col] = v * a + w * b;
-                mat[row][col] = v * c + w * d;
+                let (v, w) = (mat[i][col].clone(), mat[row][col].clone());
+                mat[i][col] = v.clone() * a.clone() + w.clone() * b.clone();
+                mat[row][col] = v * c.clone() + w * d.clone();
             }
             count += 1;
         }
@@ -88,24 +91,27 @@ fn clear_later_rows_in_place(mat: &mut Vec<Vec<isize>>, i: usize) -> usize {
 }
 
 
-fn clear_later_cols_in_place(mat: &mut Vec<Vec<isize>>, i: usize) -> usize {
+fn clear_later_cols_in_place<T>(mat: &mut Vec<Vec<T>>, i: usize) -> usize
+    where T: Signed + Clone + PartialOrd
+{
     let (n, m) = (mat.len(), mat[0].len());
     let mut count = 0;
 
     for col in (i + 1)..m {
-        let (e, f) = (mat[i][i], mat[i][col]);
+        let (e, f) = (mat[i][i].clone(), mat[i][col].clone());
 
-        if e != 0 && f % e == 0 {
+        if !e.is_zero() && (f.clone() % e.clone()).is_zero() {
             let x = f / e;
             for row in i..n {
-                mat[row][col] -= x * mat[row][i];
+                mat[row][col] =
+                    mat[row][col].clone() - x.clone() * mat[row][i].clone();
             }
-        } else if f != 0 {
+        } else if !f.is_zero() {
             let (_, a, b, c, d) = gcdx(e, f);
             for row in i..n {
-                let (v, w) = (mat[row][i], mat[row][col]);
-                mat[row][i] = v * a + w * b;
-                mat[row][col] = v * c + w * d;
+                let (v, w) = (mat[row][i].clone(), mat[row][col].clone());
+                mat[row][i] = v.clone() * a.clone() + w.clone() * b.clone();
+                mat[row][col] = v * c.clone() + w * d.clone();
             }
             count += 1;
         }
@@ -115,13 +121,15 @@ fn clear_later_cols_in_place(mat: &mut Vec<Vec<isize>>, i: usize) -> usize {
 }
 
 
-fn diagonalize_in_place(mat: &mut Vec<Vec<isize>>) {
+fn diagonalize_in_place<T>(mat: &mut Vec<Vec<T>>)
+    where T: Signed + Clone + PartialOrd
+{
     let (n, m) = (mat.len(), mat[0].len());
 
     for i in 0.. n.min(m) {
         let (row, col) = find_pivot(mat, i);
 
-        if mat[row][col] != 0 {
+        if !mat[row][col].is_zero() {
             move_pivot_in_place(mat, i, (row, col));
             loop {
                 clear_later_rows_in_place(mat, i);
@@ -158,7 +166,9 @@ pub fn abelian_invariants<'a, I>(nr_gens: usize, rels: I)
     -> Vec<usize>
     where I: IntoIterator<Item=&'a FreeWord>
 {
-    let mut mat: Vec<_> = rels.into_iter()
+    // arbitrary precision: the intermediate entries of the elimination grow far
+    // beyond the size of the input and of the result
+    let mut mat: Vec<Vec<BigInt>> = rels.into_iter()
         .map(|w| relator_as_vector(nr_gens, w))
         .collect();
 
@@ -171,23 +181,23 @@ pub fn abelian_invariants<'a, I>(nr_gens: usize, rels: I)
     diagonalize_in_place(&mut mat);
 
     let n = mat.len().min(nr_gens);
-    let mut factors: Vec<_> = (0..n).map(|i| mat[i][i]).collect();
+    let mut factors: Vec<_> = (0..n).map(|i| mat[i][i].clone()).collect();
 
     for i in 0..n {
         for j in (i + 1)..n {
-            let (a, b) = (factors[i], factors[j]);
-            if a != 0 && b % a != 0 {
-                let (g, _, _, _, _) = gcdx(a, b);
+            let (a, b) = (factors[i].clone(), factors[j].clone());
+            if !a.is_zero() && !(b.clone() % a.clone()).is_zero() {
+                let (g, _, _, _, _) = gcdx(a.clone(), b.clone());
+                factors[j] = a / g.clone() * b;
                 factors[i] = g;
-                factors[j] = a / g * b;
             }
         }
     }
 
-    let mut result: Vec<_> = factors.iter().cloned()
-        .filter(|x| *x != 1)
+    let mut result: Vec<_> = factors.iter()
+        .filter(|x| !x.is_one())
+        .map(|x| x.abs().to_usize().expect("invariant factor exceeds usize"))
         .chain(std::iter::repeat(0).take(nr_gens - n))
-        .map(|x| x.abs() as usize)
         .collect();
     result.sort();
 
